@@ -149,7 +149,7 @@ func runC05(r *run) {
 			}
 		}
 		pairs, err := lfTokenize(line[:len(line)-1])
-		if i%3 == 0 {
+		if i%3 == 0 && len(line) < 1<<14 { // (the Lean reader is quadratic in the length of one value: long lines are left to the oracle)
 			// the reader model of the proof (split at spaces outside quotes, then at the first '=') against this tokenizer
 			obs := "err"
 			if err == nil {
@@ -290,9 +290,9 @@ func runC05(r *run) {
 				attrs: g.genAttrs(1+g.intn(4), 2, true, true), tagW: 3, minW: 36, name: "other"}
 			encRun(r, "C05", noise)
 		}
-		if i%1024 == 21 {
+		if i%128 == 21 {
 			// a record far longer than any line buffer
-			big := strings.Repeat("0123456789abcdefghijklmnopqrstuvwxyz", 1900+i/1024)
+			big := strings.Repeat("0123456789abcdefghijklmnopqrstuvwxyz", 1900+i/128)
 			c.attrs = append(c.attrs, gattr{key: "zzbig", val: gval{kind: "string", goVal: big, tok: "S:" + hxs(big), text: big}})
 		}
 		if i%10 == 4 {
@@ -360,5 +360,7 @@ func runC05(r *run) {
 		nq = 30000
 	}
 	quoteProbes(r, g, false, nq)
+	// the flag word given as an explicit combination of bits
+	explicitFlagWords(r.violate)
 	slog.VerifResetGlobals()
 }
